@@ -1,7 +1,15 @@
 package props
 
 import (
+	"bytes"
+	"io"
+	"path/filepath"
+	"time"
+
 	"fmt"
+	"github.com/glebziz/fs_db"
+	"github.com/glebziz/fs_db/pkg/verif"
+	"verifharness/internal/refmodel"
 
 	"verifharness/internal/dbx"
 	"verifharness/internal/rt"
@@ -11,9 +19,12 @@ import (
 func init() {
 	register(&Prop{
 		ID: "C09", Level: "exploration",
-		Rule:        "differential: a seeded base history H (several snapshot transactions of different ages, a just-begun transaction that has not read yet, RU/RC readers, overwrites, deletes, commits) is run once per collector position p in 0..|H| with a collector pass + worker-pool drain inserted before step p, once with two consecutive passes at a seeded position, and once with a pass before every step; in every variant the open transactions and the autocommit caller read every key and GetKeys after every step (probing order per variant: oldest first / youngest first / shuffled / shuffled subset with skipped rounds, since reads themselves touch the registry) and must equal the reference model, in which the collector does not exist; GetReader streams opened before a pass are read to the end after it. evaluations = reads compared; distinct_nontrivial = distinct (base history, position) variants in which the pass physically removed at least one content file",
+		Rule:        "differential: a seeded base history H (several snapshot transactions of different ages, a just-begun transaction that has not read yet, RU/RC readers, overwrites, deletes, commits) is run once per collector position p in 0..|H| with a collector pass + worker-pool drain inserted before step p, once with two consecutive passes at a seeded position, and once with a pass before every step; in every variant the open transactions and the autocommit caller read every key and GetKeys after every step (probing order per variant: oldest first / youngest first / shuffled / shuffled subset with skipped rounds, since reads themselves touch the registry) and must equal the reference model, in which the collector does not exist; GetReader streams opened before a pass are read to the end after it. Role scheduled: the database's own scheduled collector job (period 1-250 ms) runs while writes are in progress whose content arrives slowly (pauses of 3 ms to 1.3 s in a SetReader source or between two Writes of a file from Create; autocommit and in transactions; inline and through the server): the write must be complete, nothing else may change, also a few periods later and after a reopen. evaluations = reads compared; distinct_nontrivial = distinct (base history, position) variants in which the pass physically removed at least one content file",
 		Assumptions: []string{"reference model refmodel (collector = no-op)"},
-		Roles:       map[string]Role{"main": {N: func(t string) int { return tierN(t, 24, 1200) }, Case: c09Case}},
+		Roles: map[string]Role{
+			"main":      {N: func(t string) int { return tierN(t, 24, 1200) }, Case: c09Case},
+			"scheduled": {N: func(t string) int { return tierN(t, 12, 240) }, Case: c09Scheduled},
+		},
 	})
 }
 
@@ -95,4 +106,159 @@ func collectorPosClass(n string) string {
 		return "single"
 	}
 	return n[:5]
+}
+
+// pausingReader delivers its content in two parts with a pause in between.
+type pausingReader struct {
+	data  []byte
+	at    int
+	pause time.Duration
+	off   int
+	done  bool
+}
+
+func (p *pausingReader) Read(b []byte) (int, error) {
+	if p.off >= len(p.data) {
+		return 0, io.EOF
+	}
+	if p.off >= p.at && !p.done {
+		p.done = true
+		time.Sleep(p.pause)
+	}
+	end := len(p.data)
+	if p.off < p.at {
+		end = p.at
+	}
+	n := copy(b, p.data[p.off:end])
+	p.off += n
+	return n, nil
+}
+
+// c09Scheduled: the database's own scheduled collector job runs every few milliseconds while
+// writes are in progress whose content arrives slowly (a source that pauses, a file from Create
+// that stays open between two Writes; the pauses are 3 ms to 1.3 s, i.e. many scheduled passes),
+// autocommit and inside transactions, over existing values and fresh keys, inline and through
+// the server. Whatever the job does, the write that returned nil must be readable completely,
+// the values of the other keys must not change, and GetKeys must list exactly the readable keys.
+func c09Scheduled(tier string, seed int64, idx int, scratch string) rt.CaseResult {
+	var c rt.CaseResult
+	rng := seqrun.Rng(seed, "C09s", idx)
+	mode := dbx.Inline
+	if idx%4 == 3 {
+		mode = dbx.Grpc
+	}
+	gcp := []time.Duration{time.Millisecond, 20 * time.Millisecond, 250 * time.Millisecond}[idx%3]
+	env, err := dbx.Open(dbx.Options{Mode: mode, Dir: filepath.Join(scratch, "db"), GCPeriod: gcp, NumWorkers: 1 + idx%3})
+	if err != nil {
+		c.Violate("open-failed", err.Error(), nil)
+		return c
+	}
+	defer env.Close()
+	expect := map[string][]byte{}
+	keys := []string{"s0", "s1", "s2", "s3"}
+	for i, k := range keys[:2+rng.Intn(2)] {
+		v := seqrun.Content(fmt.Sprintf("sch%d-init%d", idx, i), 50)
+		if err := env.DB.Set(ctxBg, k, v); err != nil {
+			c.Violate("setup-write-failed", err.Error(), nil)
+			return c
+		}
+		expect[k] = v
+	}
+	verify := func(when string, plan map[string]any) bool {
+		for _, k := range keys {
+			b, gerr := env.DB.Get(ctxBg, k)
+			want, has := expect[k]
+			if has && (gerr != nil || !bytes.Equal(b, want)) || !has && seqrun.Class(gerr) != refmodel.NotFound {
+				c.Violate("value-changed-by-scheduled-collection "+when, fmt.Sprintf("%s: key %q reads %s (%v), expected %s (has a value: %v); the only other activity was the database's own scheduled collector job", when, k, seqrun.Describe(b), gerr, seqrun.Describe(want), has), plan)
+				return false
+			}
+		}
+		ks, kerr := env.DB.GetKeys(ctxBg)
+		var wantKeys []string
+		for _, k := range keys {
+			if _, ok := expect[k]; ok {
+				wantKeys = append(wantKeys, k)
+			}
+		}
+		if kerr != nil || fmt.Sprint(ks) != fmt.Sprint(wantKeys) {
+			c.Violate("keys-changed-by-scheduled-collection "+when, fmt.Sprintf("%s: GetKeys returns %v (%v), expected %v", when, ks, kerr, wantKeys), plan)
+			return false
+		}
+		return true
+	}
+	pauses := []time.Duration{3 * time.Millisecond, 40 * time.Millisecond, 300 * time.Millisecond}
+	if idx%6 == 0 {
+		pauses = append(pauses, 1300*time.Millisecond)
+	}
+	n := 0
+	for _, pause := range pauses {
+		for _, api := range []string{"setreader", "create"} {
+			for _, inTx := range []bool{false, true} {
+				rt.Beat()
+				n++
+				key := keys[rng.Intn(len(keys))]
+				l := []int{600, 5000, 70000}[rng.Intn(3)]
+				v := seqrun.Content(fmt.Sprintf("sch%d-w%d", idx, n), l)
+				at := 1 + rng.Intn(l-1)
+				plan := map[string]any{"seed": seed, "case": idx, "mode": modeName(mode), "api": api, "in_transaction": inTx, "pause": pause.String(), "gc_period": gcp.String(), "len": l, "pause_at": at, "key": key}
+				var st fs_db.Store = env.DB
+				var tx fs_db.Tx
+				if inTx {
+					tx, err = env.DB.Begin(ctxBg, verif.IsoLevel([]int{1, 2, 3}[rng.Intn(3)]))
+					if err != nil {
+						c.Violate("begin-failed", err.Error(), plan)
+						return c
+					}
+					st = tx
+				}
+				var werr error
+				if api == "setreader" {
+					werr = st.SetReader(ctxBg, key, &pausingReader{data: v, at: at, pause: pause})
+				} else {
+					var f fs_db.File
+					f, werr = st.Create(ctxBg, key)
+					if werr == nil {
+						_, werr = f.Write(v[:at])
+						time.Sleep(pause)
+						if werr == nil {
+							_, werr = f.Write(v[at:])
+						}
+						if cerr := f.Close(); werr == nil {
+							werr = cerr
+						}
+					}
+				}
+				if werr == nil && inTx {
+					if b, gerr := tx.Get(ctxBg, key); gerr != nil || !bytes.Equal(b, v) {
+						c.Violate("own-write-unreadable-under-scheduled-collection", fmt.Sprintf("the transaction reads %s (%v) for the key it has just written", seqrun.Describe(b), gerr), plan)
+						return c
+					}
+					werr = tx.Commit(ctxBg)
+				}
+				c.Evals++
+				if werr != nil {
+					c.Violate("slow-write-failed-under-scheduled-collection class="+string(seqrun.Class(werr)), fmt.Sprintf("a fault-free write whose content arrived slowly failed: %v", werr), plan)
+					return c
+				}
+				expect[key] = v
+				if !verify("after the slow write", plan) {
+					return c
+				}
+				c.AddDistinct(fmt.Sprintf("%s/%s/tx=%v/pause=%s/gc=%s", modeName(mode), api, inTx, pause, gcp))
+			}
+		}
+	}
+	time.Sleep(3 * gcp)
+	if !verify("a few collector periods later", map[string]any{"seed": seed, "case": idx}) {
+		return c
+	}
+	if err := env.Reopen(); err != nil {
+		c.Violate("reopen-failed role=scheduled", err.Error(), nil)
+		return c
+	}
+	verify("after a reopen", map[string]any{"seed": seed, "case": idx})
+	if idx == 0 {
+		c.Sample = map[string]any{"gc_period": gcp.String(), "pauses": fmt.Sprint(pauses), "slow_writes": n}
+	}
+	return c
 }
